@@ -155,6 +155,10 @@ func (p *Subscribe) Unpack(r io.Reader) (err error) {
 		if topic.Qos > Qos2 {
 			return codes.ErrProtocol
 		}
+		// It is a Protocol Error to set the No Local bit on a Shared Subscription [MQTT-3.8.3-4]
+		if topic.NoLocal && bytes.HasPrefix(topicFilter, []byte("$share/")) {
+			return codes.ErrProtocol
+		}
 		p.Topics = append(p.Topics, topic)
 		if bufr.Len() == 0 {
 			return nil
